@@ -225,7 +225,19 @@ class System:
         self.receiver = BoboReceiver(validator=BoboValidatorAll(), gen_event_id=gen_id, gen_timestamp=gen_ts,
                                      gen_event=BoboGenEventTime(millis=40, datagen=_tick), max_size=ms)
         action = ActionNoop("act") if kind == "processes" else ActionFeed("act", self.receiver)
-        self.phenomena = [BoboPhenomenon("ph", [p1, p3, ps], action=action, datagen=_datagen)]
+        self.refill = False
+
+        def datagen(phenom, history):
+            # a user callback (runs in the producer, under its lock) that feeds data back - here until the receiver's
+            # bounded queue is full, so that the complex event about to be published finds no room
+            if self.refill:
+                try:
+                    for _ in range(4 * BOUND):
+                        self.receiver.add_data("fill")
+                except Exception:        # noqa: "queue is full"
+                    pass
+            return _datagen(phenom, history)
+        self.phenomena = [BoboPhenomenon("ph", [p1, p3, ps], action=action, datagen=datagen)]
         self.decider = BoboDecider(phenomena=self.phenomena, gen_event_id=gen_id, gen_run_id=gen_run, max_cache=50,
                                    max_size=ms)
         self.producer = BoboProducer(phenomena=self.phenomena, gen_event_id=gen_id, gen_timestamp=gen_ts,
@@ -427,6 +439,20 @@ class System:
             self.as_role("engine", self.engine.update, what="engine.update", tolerate=expected)
         self.outgoing(BOUND + 8)
         self.observe()
+        # the receiver's bounded queue is full at the moment a complex event is handed back to it (documented: the
+        # BoboReceiverError "queue is full" comes out of the update cycle); a remote completion is dispatched too
+        self.refill = True
+        for _ in range(3):
+            for d in ("a", "b"):
+                self.as_role("feeder", self.receiver.add_data, d, what="receiver.add_data", tolerate=expected)
+                for _k in range(2):
+                    self.as_role("engine", self.engine.update, what="engine.update (receiver queue full)", tolerate=expected)
+        self.refill = False
+        for _ in range(6 * BOUND):                     # back to empty task queues
+            if self.receiver.size() + self.decider.size() + self.producer.size() + self.forwarder.size() == 0:
+                break
+            self.as_role("engine", self.engine.update, what="engine.update", tolerate=expected)
+        self.outgoing(BOUND + 8)
 
     def getters(self):
         d = self.decider
@@ -585,6 +611,9 @@ class System:
                 self.dist.budget(-1)
                 fn()
             return go
+        if self.bounded and any(f["role"] == "engine" and "receiver._lock" in f["held"] and "producer._lock" in f["held"]
+                                for f in targets):
+            self.refill = True       # the cycle goes through a complex event handed back to a FULL receiver queue
         self.as_role("dist-main", self.dist.run, wait=False)
         self.wait_until(lambda: getattr(self.dist, "_running", True), "dist.run() did not start")
         # engine.update() is a public entry point: as many engine threads as the cycle to force needs (two when
